@@ -541,7 +541,7 @@ def _forced_conflict(draw, base):
     shape = draw(st.sampled_from(["del_vs_edit", "edit_vs_del", "both_edit_source", "both_edit_outputs", "both_edit_meta",
                                   "both_insert_same_pos", "both_insert_similar", "insert_next_to_edit", "insert_next_to_del",
                                   "both_append_nonl", "both_attach", "both_nbmeta", "both_minor", "both_del", "both_ec",
-                                  "both_same_edit", "both_edit_same_output", "both_edit_same_output", "transient_meta", "type_vs_edit", "type_vs_edit", "type_vs_edit"]))
+                                  "both_same_edit", "both_edit_same_output", "both_edit_same_output", "transient_meta", "type_vs_edit", "type_vs_edit", "type_vs_edit", "both_rerun", "both_rerun"]))
     usedl, usedr = _ids(l), _ids(r)
     if n == 0 or shape in ("both_insert_same_pos", "both_insert_similar"):
         i = draw(st.integers(0, n))
@@ -557,7 +557,7 @@ def _forced_conflict(draw, base):
         return l, r, shape
     i = draw(st.integers(0, n - 1))
     code_idx = [k for k, x in enumerate(base["cells"]) if x["cell_type"] == "code"]
-    if code_idx and shape in ("both_edit_outputs", "both_ec", "both_edit_same_output", "transient_meta", "type_vs_edit"):
+    if code_idx and shape in ("both_edit_outputs", "both_ec", "both_edit_same_output", "transient_meta", "type_vs_edit", "both_rerun"):
         i = draw(st.sampled_from(code_idx))      # shapes about outputs / execution counts need a code cell
     c = base["cells"][i]
     dve = draw(st.sampled_from([None, None, ["source", "rerun"], ["source", "toggle"], ["rerun"], ["rerun", "toggle"], ["source", "outputs"]]))
@@ -607,6 +607,19 @@ def _forced_conflict(draw, base):
                     so.insert(j, draw(output()))
                 elif extra == "del_other" and len(so) > 1:
                     del so[(j + 1) % len(so)]
+    elif shape == "both_rerun":
+        # the everyday conflict: both sides re-executed the same cell (different execution counts, maybe new outputs)
+        if c["cell_type"] == "code" and draw(st.booleans()):
+            c["execution_count"] = None          # never executed in base
+        l["cells"][i] = draw(edit_cell(c, minor, ["rerun"], n_edits=1))
+        r["cells"][i] = draw(edit_cell(c, minor, ["rerun"], n_edits=1))
+        if c["cell_type"] == "code":
+            r["cells"][i]["execution_count"] = l["cells"][i]["execution_count"] + draw(st.sampled_from([0, 1, 2]))
+            for o in r["cells"][i]["outputs"]:
+                if o["output_type"] == "execute_result":
+                    o["execution_count"] = r["cells"][i]["execution_count"]
+            if draw(st.booleans()):
+                r["cells"][i] = draw(edit_cell(r["cells"][i], minor, ["outputs"], n_edits=1))
     elif shape == "type_vs_edit":
         a_, b_ = (l, r) if draw(st.booleans()) else (r, l)
         a_["cells"][i] = draw(edit_cell(c, minor, ["type"], n_edits=1))
